@@ -22,9 +22,23 @@ int stub_udict_cmp(struct udict *a, struct udict *b) { return 0; }
 #endif
 static struct upipe_ts_psi_join g_join; static struct upipe_ts_psi_join_sub g_sub[3];
 static void stub_rc_cb(struct urefcount *rc) { }
+#ifndef LAZY_OUT
+#define LAZY_OUT 0
+#endif
+/* -DLAZY_OUT: the joiner has no output yet; the application connects one when the joiner asks for it (need_output) */
+static int g_lazy_calls;
+static int stub_probe_lazy(struct uprobe *uprobe, struct upipe *upipe, int event, va_list args)
+{
+    if (event == UPROBE_NEED_OUTPUT && LAZY_OUT && upipe == &g_join.upipe && g_join.output == NULL) {
+        g_lazy_calls++;
+        upipe_ts_psi_join_set_output(upipe, &gs_out);
+        return UBASE_ERR_NONE;
+    }
+    return stub_probe_throw(uprobe, upipe, event, args);
+}
 void h_join_input(void)
 {
-    vs_reset_all();
+    vs_reset_all(); gs_probe.uprobe_throw = stub_probe_lazy; g_lazy_calls = 0;
     struct upipe *jp = &g_join.upipe;
     upipe_ts_psi_join_mgr.signature = UPIPE_TS_PSI_JOIN_SIGNATURE;
     jp->mgr = &upipe_ts_psi_join_mgr; jp->uprobe = &gs_probe; jp->refcount = &g_join.urefcount; uchain_init(&jp->uchain);
@@ -46,8 +60,15 @@ void h_join_input(void)
     struct uref *uref = vs_make_uref(true, 77, marker); VASSUME(uref != NULL);
     int live_old = gs_uref_live, in_old = gs_out_inputs;
     upipe_ts_psi_join_sub_input(&g_sub[which].upipe, uref, NULL);
-    VPOST(gs_out_inputs - in_old == (VALID_OUT ? 1 : 0));
-    VPOST(!VALID_OUT || gs_out_last_input == uref);
+    if (LAZY_OUT && !VALID_OUT) {
+        /* the output connected on demand gets the definition first and, if it accepts it, the section itself */
+        VPOST(g_lazy_calls == 1 && g_join.output == &gs_out && gs_out_setdef >= 1);
+        VPOST(gs_out_inputs - in_old == (gs_out_acc_ptr != NULL ? 1 : 0));
+        VPOST(gs_out_inputs == in_old || gs_out_last_input == uref);
+    } else {
+        VPOST(gs_out_inputs - in_old == (VALID_OUT ? 1 : 0));
+        VPOST(!VALID_OUT || gs_out_last_input == uref);
+    }
     VPOST(gs_uref_live == live_old - 1 && gs_out_input_unaccepted == 0 && gs_out_input_stale == 0);
     VCANARY();
 }
